@@ -50,3 +50,5 @@ CONSTANTS
  LateFrames = FALSE
  CrossVersion = FALSE
  Restore = FALSE
+ Regulate_ = FALSE
+ OptFlips = {}
